@@ -1,1 +1,3 @@
+pub mod luau;
 pub mod programs;
+pub mod refactor;
